@@ -1239,7 +1239,11 @@ class VM:
         g = self.globals
         if constructor is g.get("Object"):
             if isinstance(obj, JSObject):
-                return obj._prototype is None and not getattr(obj, "_null_prototype", False)
+                return (
+                    obj._prototype is None
+                    and not getattr(obj, "_null_prototype", False)
+                    and obj is not getattr(constructor, "_prototype", None)
+                )
             return isinstance(obj, JSFunction) or (
                 callable(obj) and not isinstance(obj, type)
             )
